@@ -498,6 +498,22 @@ func suiteURL(r *Rng, n int, thorough bool, o *Out) {
 			guard(func() { str = u.String() })
 		}
 		o.emit(op, "ok "+dump+" "+hx(str), pv)
+		// the modelled url.Parse/Query on String()'s grammar against the real one
+		reparse := "none"
+		if pu2, e := url.Parse(str); e == nil {
+			q := pu2.Query()
+			ks := make([]string, 0, len(q))
+			for k := range q {
+				ks = append(ks, k)
+			}
+			sort.Strings(ks)
+			vs := make([]string, len(ks))
+			for i, k := range ks {
+				vs[i] = lst(hx(k), hxs(q[k]))
+			}
+			reparse = lst(hx(pu2.Path), lst(vs...))
+		}
+		o.emit(lst("url", "reparse", hx(str)), reparse, "na")
 	}
 }
 
